@@ -42,7 +42,7 @@ func checkAddressFromDeclaredThreshold(c *core.Ctx) {
 			n++
 			kb, kf, okK := fieldLoad(ir.Strip(keys))
 			mb, mf, okM := fieldLoad(ir.Strip(m))
-			ok := okK && okM && kf == "PubKeys" && mf == "M" && (ir.Strip(kb) == ir.Strip(mb) || sameValue(kb, mb) || sameAccessPath(kb, mb) || copiedFrom(kb) == copiedFrom(mb))
+			ok := okK && okM && kf == "PubKeys" && mf == "M" && (ir.Strip(kb) == ir.Strip(mb) || sameValue(kb, mb) || sameAccessPath(kb, mb) || copiedFrom(kb) == copiedFrom(mb) || sameElementAddr(kb, mb))
 			why := ""
 			if !ok {
 				why = "the threshold the address is derived from is not the entry's declared M (" + ir.Strip(m).String() + "): an entry with spare signature blobs is attributed another account's address"
@@ -81,4 +81,15 @@ func copiedFrom(v ssa.Value) ssa.Value {
 		v = ld.X
 	}
 	return v
+}
+
+// sameElementAddr: two addresses of the same slice element (`s[i].A` and `s[i].B` read in one iteration):
+// the same base slice and the same index value.
+func sameElementAddr(a, b ssa.Value) bool {
+	ia, ok1 := ir.Strip(a).(*ssa.IndexAddr)
+	ib, ok2 := ir.Strip(b).(*ssa.IndexAddr)
+	if !ok1 || !ok2 {
+		return false
+	}
+	return (ia.X == ib.X || sameValue(ia.X, ib.X)) && (ia.Index == ib.Index || sameValue(ia.Index, ib.Index)) && ia.Block() == ib.Block()
 }
